@@ -12,8 +12,14 @@ it opens is accepted or refused) and when the pool is shut down.
 
 The monitors are independent of the driver's own counters wherever the statement is about what
 happens on the wire: which streams are outstanding on which connection is taken from what the
-*server* received and answered, which of them were given up is taken from the explorer's own
-timeout events.
+*server* received and answered; a request counts as given up once the application has been handed
+an outcome for it (or while its client-side timeout is expiring).
+
+Engine E: `PoolHarness` (events = request / answer / timeout / connection reset / next task with the
+connect accepted or refused / shutdown).  Engine S: `sched_run` (client, reactor, executor-worker and
+shutdown threads after a staged single-threaded prefix; scheduling points at every line of the pool
+class).  Both use the same judgements (`PoolWorld.*_findings`); each property passes the list of
+clauses it owns, hits of the other property's clauses are only counted.
 """
 from vt import explore
 from vt.connlib import quiet_driver_logs
@@ -746,7 +752,7 @@ def sched_run(params, prefix, part):
                 s.spawn(loop('worker', lambda: len(st.w.tasks), do_task), name)
             else:
                 raise explore.HarnessError('unknown thread kind %r' % t)
-        s.run()
+        s.run(watchdog=float(p.get("watchdog", 180.0)))   # generous: on a heavily loaded machine all workers can be starved for many seconds
         data = {'params': params, 'prefix': s.choices()}
         if s.failure:
             part.violation('%s/%s/%s' % (p['prop'], s.failure[0], cls), '%s' % (s.failure[1],), data)
